@@ -2,7 +2,7 @@
 // AST types of peginator_codegen::grammar.  Symbolic hex digits / escape selectors.
 use peginator_codegen::grammar::{
     HexaEscape, SimpleEscape, SimpleEscapeBackslash, SimpleEscapeCarriageReturn, SimpleEscapeDQuote,
-    SimpleEscapeNewline, SimpleEscapeQuote, SimpleEscapeTab, StringItem, StringLiteral, Utf8Escape,
+    SimpleEscapeNewline, SimpleEscapeQuote, SimpleEscapeTab, StringItem, Utf8Escape,
 };
 use vrt::Src;
 
@@ -95,30 +95,178 @@ pub fn k_utf8<S: Src>(src: &mut S) {
     std::mem::forget(got);
 }
 
-pub fn k_literal<S: Src>(src: &mut S) {
-    let a = src.char();
-    let (c1, v1) = hexdigit(src);
-    let (c2, v2) = hexdigit(src);
-    let third = src.bool();
-    let mut body = vec![StringItem::char(a), StringItem::HexaEscape(HexaEscape { c1, c2 })];
-    if third {
-        body.push(StringItem::SimpleEscape(SimpleEscape::SimpleEscapeTab(SimpleEscapeTab)));
+// (a harness on TryFrom<&StringLiteral> for String - `collect::<Result<String>>` over the items - was tried in three
+// sizes and exhausts CBMC at 16 GB even with two ASCII items; concatenation order is therefore not decided, see DESIGN.md)
+
+// --------------------------------------------------------------------------------------------
+// E harnesses: entry points of the SHIPPED front end (codegen/src/grammar/generated.rs, included verbatim),
+// followed by the real decoders on the real parse result.
+#[allow(non_camel_case_types, non_snake_case, unused, dead_code, clippy::all)]
+pub mod fe {
+    include!("__REPO__/codegen/src/grammar/generated.rs");
+    use peginator::{NoopTracer, ParseError, ParseGlobal, ParseSettings, ParseState};
+
+    macro_rules! entry {
+        ($name:ident, $parser:ident, $ty:ty) => {
+            pub fn $name(s: &str) -> Result<($ty, usize), ParseError> {
+                let st = ParseState::new(s, &ParseSettings::default());
+                let mut g = ParseGlobal::<NoopTracer, peginator_generated::ParseCache, ()>::new(Default::default(), ());
+                peginator_generated::$parser(st, &mut g).map(|ok| (ok.result, s.len() - ok.state.s().len()))
+            }
+        };
     }
-    let lit = StringLiteral { insensitive: None, body };
-    vcover!(src, third && (a as u32) > 0x7F, "three items, first one multi-byte");
-    let got = String::try_from(&lit);
-    match &got {
-        Ok(s) => {
-            let mut it = s.chars();
-            let x = it.next();
-            let y = it.next();
-            let z = it.next();
-            vcheck!(src, x == Some(a), "C12: a literal is its items in order (first)");
-            vcheck!(src, y.map(|c| c as u32) == Some(v1 * 16 + v2), "C12: a literal is its items in order (second)");
-            vcheck!(src, z == if third { Some('\t') } else { None }, "C12: a literal is its items in order (third / end)");
+    entry!(hexa_escape, parse_HexaEscape, HexaEscape);
+    entry!(utf8_escape, parse_Utf8Escape, Utf8Escape);
+    entry!(string_item, parse_StringItem, StringItem);
+}
+
+fn conv_utf8(e: &fe::Utf8Escape) -> Utf8Escape {
+    Utf8Escape { c1: e.c1, c2: e.c2, c3: e.c3, c4: e.c4, c5: e.c5, c6: e.c6 }
+}
+
+#[inline(always)]
+fn hexb(b: u8) -> Option<u32> {
+    hexval(b as char)
+}
+
+/// `xHH` + one trailing byte
+pub fn e_hexa<S: Src>(src: &mut S) {
+    let (mut bytes, len) = vrt::draw_input::<4, S>(src, None);
+    src.assume(len >= 1);
+    bytes[0] = b'x';
+    let s = vrt::as_input(src, &bytes, len);
+    let b = &bytes[..len];
+    let want = if len >= 3 { match (hexb(b[1]), hexb(b[2])) { (Some(h), Some(l)) => Some(h * 16 + l), _ => None } } else { None };
+    vcover!(src, want.is_some() && len == 4, "accepted with trailing input");
+    vcover!(src, want.is_none() && len >= 3, "rejected: not two hexadecimal digits");
+    let r = fe::hexa_escape(s);
+    vcheck!(src, r.is_ok() == want.is_some(), "C12: \\xHH is read exactly when two hexadecimal digits follow the x");
+    if let (Ok((e, used)), Some(v)) = (&r, want) {
+        vcheck!(src, *used == 3, "C12: \\xHH consumes the x and two digits");
+        let got: char = (&HexaEscape { c1: e.c1, c2: e.c2 }).into();
+        vcheck!(src, got as u32 == v, "C12: \\xHH as read by the front end denotes U+00HH");
+    }
+}
+
+/// `u` + up to 8 more bytes: `u{H..}` (1-6 digits) or `uHHHH`
+pub fn e_utf8_u<const N: usize, S: Src>(src: &mut S) {
+    let (mut bytes, len) = vrt::draw_input::<N, S>(src, None);
+    src.assume(len >= 1);
+    bytes[0] = b'u';
+    let s = vrt::as_input(src, &bytes, len);
+    let b = &bytes[..len];
+    // specification: all alternatives of the rule
+    let mut want: Option<(usize, u32)> = None;
+    if len >= 2 && b[1] == b'{' {
+        let mut k = 2;
+        let mut v: u32 = 0;
+        while k < len && k < 8 {
+            match hexb(b[k]) { Some(d) => { v = v * 16 + d; k += 1; } None => break }
         }
-        Err(_) => vcheck!(src, false, "C12: a literal of valid items decodes"),
+        if k > 2 && k < len && b[k] == b'}' {
+            want = Some((k + 1, v));
+        }
+    } else if len >= 5 {
+        if let (Some(a), Some(c), Some(d), Some(e)) = (hexb(b[1]), hexb(b[2]), hexb(b[3]), hexb(b[4])) {
+            want = Some((5, ((a * 16 + c) * 16 + d) * 16 + e));
+        }
     }
-    std::mem::forget(got);
-    std::mem::forget(lit);
+    vcover!(src, matches!(want, Some((u, _)) if u == 9), "six digits in braces");
+    vcover!(src, matches!(want, Some((5, _))) && b[1] != b'{', "four digits without braces");
+    vcover!(src, matches!(want, Some((4, _))), "one digit in braces");
+    vcover!(src, want.is_none() && len >= 9 && b[1] == b'{' && hexb(b[8]).is_some(), "seven digits in braces are rejected");
+    let r = fe::utf8_escape(s);
+    vcheck!(src, r.is_ok() == want.is_some(), "C12: \\u{H..} (1-6 digits) and \\uHHHH are read exactly in their documented forms");
+    if let (Ok((e, used)), Some((wu, wv))) = (&r, want) {
+        vcheck!(src, *used == wu, "C12: a \\u escape consumes exactly its documented form");
+        let valid = wv <= 0x10FFFF && !(wv >= 0xD800 && wv <= 0xDFFF);
+        let got: Result<char, _> = (&conv_utf8(e)).try_into();
+        vcheck!(src, got.is_ok() == valid, "C12: a \\u escape is an error exactly for surrogates and values above U+10FFFF");
+        if let Ok(c) = &got {
+            vcheck!(src, *c as u32 == wv, "C12: a \\u escape as read by the front end denotes the scalar value written");
+        }
+        std::mem::forget(got);
+    }
+}
+
+/// `U00` + six digits + one trailing byte
+pub fn e_utf8_big<S: Src>(src: &mut S) {
+    let (mut bytes, len) = vrt::draw_input::<10, S>(src, None);
+    src.assume(len >= 1);
+    bytes[0] = b'U';
+    let s = vrt::as_input(src, &bytes, len);
+    let b = &bytes[..len];
+    let mut want: Option<u32> = None;
+    if len >= 9 && b[1] == b'0' && b[2] == b'0' {
+        let mut v: u32 = 0;
+        let mut ok = true;
+        let mut k = 3;
+        while k < 9 {
+            match hexb(b[k]) { Some(d) => v = v * 16 + d, None => ok = false }
+            k += 1;
+        }
+        if ok { want = Some(v); }
+    }
+    vcover!(src, want.is_some() && len == 10, "accepted with trailing input");
+    vcover!(src, want.is_none() && len >= 9 && b[1] == b'0' && b[2] == b'1', "first two digits must be 0");
+    let r = fe::utf8_escape(s);
+    vcheck!(src, r.is_ok() == want.is_some(), "C12: \\U00HHHHHH is read exactly when 00 and six hexadecimal digits follow the U");
+    if let (Ok((e, used)), Some(wv)) = (&r, want) {
+        vcheck!(src, *used == 9, "C12: \\U00HHHHHH consumes nine characters");
+        let valid = wv <= 0x10FFFF && !(wv >= 0xD800 && wv <= 0xDFFF);
+        let got: Result<char, _> = (&conv_utf8(e)).try_into();
+        vcheck!(src, got.is_ok() == valid, "C12: \\U00HHHHHH is an error exactly for surrogates and values above U+10FFFF");
+        if let Ok(c) = &got {
+            vcheck!(src, *c as u32 == wv, "C12: \\U00HHHHHH denotes the scalar value written");
+        }
+        std::mem::forget(got);
+    }
+}
+
+/// every text of up to 4 bytes through the StringItem rule
+pub fn e_item<S: Src>(src: &mut S) {
+    let (bytes, len) = vrt::draw_input::<4, S>(src, None);
+    let s = vrt::as_input(src, &bytes, len);
+    let b = &bytes[..len];
+    // kind: 0 none, 1 plain char, 2 simple escape, 3 \xHH
+    let mut kind = 0u8;
+    let mut used = 0usize;
+    let mut val = 0u32;
+    if len > 0 {
+        if b[0] == b'\\' {
+            if len >= 2 {
+                let simple = match b[1] { b'n' => Some('\n'), b'r' => Some('\r'), b't' => Some('\t'), b'\\' => Some('\\'), b'\'' => Some('\''), b'"' => Some('"'), _ => None };
+                if let Some(c) = simple {
+                    kind = 2; used = 2; val = c as u32;
+                } else if b[1] == b'x' && len >= 4 {
+                    if let (Some(h), Some(l)) = (hexb(b[2]), hexb(b[3])) { kind = 3; used = 4; val = h * 16 + l; }
+                }
+                // \u.. and \U.. need at least 5 characters: cannot be complete inside 4 bytes
+            }
+        } else {
+            let (c, k) = vrt::decode_at(b, 0);
+            kind = 1; used = k; val = c;
+        }
+    }
+    vcover!(src, kind == 3, "hexadecimal escape");
+    vcover!(src, kind == 2, "simple escape");
+    vcover!(src, kind == 1 && used == 3, "plain 3-byte character");
+    vcover!(src, kind == 0 && len >= 2 && b[0] == b'\\', "backslash followed by something that is not an escape");
+    let r = fe::string_item(s);
+    vcheck!(src, r.is_ok() == (kind != 0), "C12: a string item is a plain character or one of the documented escapes, nothing else starting with a backslash");
+    if let Ok((item, u)) = &r {
+        vcheck!(src, *u == used, "C12: a string item consumes exactly its characters");
+        let structure_ok = match item {
+            fe::StringItem::char(c) => kind == 1 && *c as u32 == val,
+            fe::StringItem::SimpleEscape(_) => kind == 2,
+            fe::StringItem::HexaEscape(h) => kind == 3 && hexval(h.c1).is_some() && hexval(h.c2).is_some(),
+            fe::StringItem::Utf8Escape(_) => false,
+        };
+        vcheck!(src, structure_ok, "C12: the item is read into the structure its syntax denotes");
+        if let fe::StringItem::HexaEscape(h) = item {
+            let got: char = (&HexaEscape { c1: h.c1, c2: h.c2 }).into();
+            vcheck!(src, got as u32 == val, "C12: the escape read by the front end denotes the documented character");
+        }
+    }
+    std::mem::forget(r);
 }
